@@ -149,6 +149,8 @@ type c10Scenario struct {
 	SeedRecs []c10SeedRec `json:"seed_recs,omitempty"`
 	Ops      []c10Op      `json:"ops"`
 	Settle   bool         `json:"settle,omitempty"`
+	// TZ: zone of the controller process (time.Local) in hours east of UTC; 0 = UTC
+	TZ int `json:"tz,omitempty"`
 	// cloud outage: the fault bits CF apply to every reconcile/collector step with
 	// From <= index < To (including the two halves of an "rr" step)
 	Outage *c10Outage `json:"outage,omitempty"`
